@@ -228,6 +228,8 @@ def perform(step, objs):
             return a.rotate(num(step["angle"]), step["degrees"])
         return a.rotate(num(step["angle"]))
     if op == "invert":
+        if step.get("via") == "jordan":
+            return a.jordans[0].invert()  # the shape's own curve, inverted in place
         return a.invert()
     if op == "split":
         return jordan_of(a, step["k"], step.get("kkey")).split(
